@@ -9,7 +9,7 @@ import FluteModel.MultiRecv
   * `alt`: the listener-event language per key, `(open close)* open?`, as a two-state automaton that
     also rejects a close without an open and a second open without a close.
 
-  Shared with the model: the types `Key`, `Pkt`, `Event`, `Sess`, `Machine` (the session machine is a
+  Shared with the model: the types `Key`, `Pkt`, `Event`, `Machine` (the session machine is a
   parameter on both sides).
 -/
 namespace Flute.Spec.Solo
@@ -22,15 +22,15 @@ inductive KOp (π : Type)
   /-- one of its packets with the close-session flag is processed at instant `t` -/
   | close (t : Nat) (p : Pkt π)
   /-- `cleanup(now)` at instant `t` -/
-  | cleanup (t now : Nat)
-  /-- the receiver is dropped -/
-  | drop
+  | cleanup (t : Nat) (i : π)
+  /-- the receiver is dropped at instant `t` -/
+  | drop (t : Nat) (i : π)
 
 /-- the session (if any), the listener events about this key, the outputs of this key's receiver -/
 structure Local (σ Out : Type) where
-  sess : Option (Sess σ)
+  sess : Option σ
   events : List Event
-  outs : List (Key × Key × Out)
+  outs : List (Key × Out)
 
 def Local.fresh {σ Out : Type} : Local σ Out := ⟨none, [], []⟩
 
@@ -40,30 +40,32 @@ variable {σ π Out : Type}
 def localStep (M : Machine σ π Out) (k : Key) (l : Local σ Out) : KOp π → Local σ Out
   | .data t p =>
     match l.sess with
-    | some se =>
-      let r := M.push t se.st p
-      { l with sess := some { se with st := r.1 }, outs := l.outs ++ [(k, se.key, r.2)] }
+    | some st =>
+      let r := M.push t st p
+      { l with sess := some r.1, outs := l.outs ++ [(k, r.2)] }
     | none =>
       -- the first packet creates the session: exactly one `open`
       let r := M.push t (M.init t k) p
-      { sess := some ⟨k, r.1⟩, events := l.events ++ [.opened k], outs := l.outs ++ [(k, k, r.2)] }
+      { sess := some r.1, events := l.events ++ [.opened k], outs := l.outs ++ [(k, r.2)] }
   | .close t p =>
     match l.sess with
-    | some se =>
-      let r := M.push t se.st p
-      { sess := none, events := l.events ++ [.closed k], outs := l.outs ++ [(k, se.key, r.2)] }
+    | some st =>
+      -- the packet is processed, then the session ends: exactly one `close`, the receiver is destroyed
+      let r := M.push t st p
+      { sess := none, events := l.events ++ [.closed k], outs := l.outs ++ [(k, r.2), (k, M.fini t p.body r.1)] }
     | none => l
-  | .cleanup t now =>
+  | .cleanup t i =>
     match l.sess with
-    | some se =>
-      if M.expired t se.st then { l with sess := none, events := l.events ++ [.closed k] }
+    | some st =>
+      if M.expired t st then
+        { sess := none, events := l.events ++ [.closed k], outs := l.outs ++ [(k, M.fini t i st)] }
       else
-        let r := M.cleanup t now se.st
-        { l with sess := some { se with st := r.1 }, outs := l.outs ++ [(k, se.key, r.2)] }
+        let r := M.cleanup t i st
+        { l with sess := some r.1, outs := l.outs ++ [(k, r.2)] }
     | none => l
-  | .drop =>
+  | .drop t i =>
     match l.sess with
-    | some _ => { l with sess := none, events := l.events ++ [.closed k] }
+    | some st => { sess := none, events := l.events ++ [.closed k], outs := l.outs ++ [(k, M.fini t i st)] }
     | none => l
 
 /-- a key's own sub-sequence fed to a fresh session -/
